@@ -172,6 +172,9 @@ def _run(case, ctx, d):
     one_template = bool(case['ops']) and list(case['ops'][0]) == ['one_template']
     if one_template:
         opts.update(rate=0.05, n_samples=int(rng.integers(100, 160)), ns=int(rng.integers(12, 40)), clusters='same')   # >= 4 chunks of 30 samples
+    if case['seed'][-1] % 11 == 8 and not one_template:
+        # a recording shorter than one waveform window: every window is clipped at both ends
+        opts.update(nsw=8, n_samples=int(rng.integers(4, 7)), ns=6, raw_parts=1, rate=100.)
     spec = random_spec(rng, **opts)
     if one_template:
         # every spike belongs to one template, the other templates are unused
